@@ -763,6 +763,17 @@ variant("rcptstatus-helper-correct",
 		c.writeRcptStatus(rcpt, <-status.status[i])
 	}"""),
   ("conn.go", "func dataErrorToStatus(err error) (code int, enchCode EnhancedCode, msg string) {", "// writeRcptStatus sends the LMTP reply for one recipient.\nfunc (c *Conn) writeRcptStatus(rcpt string, err error) {\n	code, enchCode, msg := dataErrorToStatus(err)\n	c.writeResponse(code, enchCode, \"<\"+rcpt+\"> \"+msg)\n}\n\nfunc dataErrorToStatus(err error) (code int, enchCode EnhancedCode, msg string) {"))
+variant("notify-nil-check-dropped",
+  ("client.go", "		if opts.Notify != nil && len(opts.Notify) != 0 {", "		if len(opts.Notify) != 0 {"))
+variant("bdat-redundant-restore-dropped",
+  ("conn.go", """	if last {
+		c.lineLimitReader.LineLimit = c.server.MaxLineLength
+
+		c.bdatPipe.Close()""", """	if last {
+		c.bdatPipe.Close()"""))
+variant("handle-redundant-toupper-dropped",
+  ("conn.go", """	cmd = strings.ToUpper(cmd)
+	switch cmd {""", """	switch cmd {"""))
 if sys.argv[1:] == ['--export']:
     out = [{"id": "benign-" + n, "edits": [{"file": f, "old": o, "new": w} for f, o, w in V[n]]} for n in V]
     json.dump(out, open('/verif/liveness/benign.json', 'w'), indent=1)
